@@ -180,7 +180,7 @@ struct Newtype(i32);
 #[derive(Debug, PartialEq, Deserialize, DSerialize, Clone)]
 struct Pair(i32, String);
 #[derive(Debug, PartialEq, Deserialize, DSerialize, Clone)]
-enum E { Unit, New(i32), Tup(i32, String), Str { a: bool } }
+enum E { Unit, New(i32), Tup(i32, String), Str { a: bool }, Opt(Option<i32>), Nil(()) }
 #[derive(Debug, PartialEq, Deserialize, DSerialize, Clone)]
 struct Outer { p: Point, e: E, o: Option<Vec<i32>>, #[serde(default)] d: u8 }
 
